@@ -87,6 +87,8 @@ def apply_codes(state, toks):
     (group|'*', kind) effects in order (kind in 'set','clear','reset')."""
     amb = False
     touched = []
+    groups = []      # reference grouping: the parameter groups that took effect, in order
+    dropped = False  # something in the list contributed nothing (unknown code, incomplete group)
     i = 0
     n = len(toks)
     while i < n:
@@ -95,47 +97,57 @@ def apply_codes(state, toks):
             # empty parameter: ECMA-48 default value 0 = reset (flagged ambiguous by split_params)
             state.clear()
             touched.append(('*', 'reset'))
+            groups.append((0,))
             i += 1
             continue
         if not isinstance(c, int):
+            dropped = True
             i += 1
             continue
         if c == 0:
             state.clear()
             touched.append(('*', 'reset'))
+            groups.append((0,))
             i += 1
         elif c in SET:
             state[SET[c]] = (c,)
             touched.append((SET[c], 'set'))
+            groups.append((c,))
             i += 1
         elif c in CLEAR:
             state.pop(CLEAR[c], None)
             touched.append((CLEAR[c], 'clear'))
+            groups.append((c,))
             i += 1
         elif c in EXT:
             g = EXT[c]
             if i + 1 >= n:
                 # bare introducer at the very end: contributes nothing
+                dropped = True
                 i += 1
             elif toks[i + 1] == 5:
                 if i + 2 >= n:
+                    dropped = True
                     i = n  # incomplete group: dropped
                 else:
                     v = toks[i + 2]
                     if isinstance(v, int) and 0 <= v <= 255:
                         state[g] = (c, 5, v)
                         touched.append((g, 'set'))
+                        groups.append((c, 5, v))
                     else:
                         amb = True
                     i += 3
             elif toks[i + 1] == 2:
                 if i + 4 >= n:
+                    dropped = True
                     i = n  # incomplete group: dropped
                 else:
                     vs = toks[i + 2:i + 5]
                     if all(isinstance(v, int) and 0 <= v <= 255 for v in vs):
                         state[g] = (c, 2) + tuple(vs)
                         touched.append((g, 'set'))
+                        groups.append((c, 2) + tuple(vs))
                     else:
                         amb = True
                     i += 5
@@ -145,8 +157,20 @@ def apply_codes(state, toks):
                 amb = True
                 i += 1
         else:
+            dropped = True
             i += 1  # unknown code: ignored
+    apply_codes.last = (groups, dropped)
     return amb, touched
+
+
+def ref_groups(params):
+    """Reference reading of a parameter string: (list of int tuples that take effect in order, state,
+    ambiguous, dropped)."""
+    st = {}
+    toks, amb = split_params(params)
+    amb2, _ = apply_codes(st, toks)
+    groups, dropped = apply_codes.last
+    return groups, freeze(st), (amb or amb2), dropped
 
 
 _reduce_cache = {}
